@@ -337,7 +337,7 @@ func createTaskWithDir(dir string, opts GlobalOptions, lockPath, eventsPath, epi
 			if !ok {
 				return fmt.Errorf("unknown epic id %s", epicID)
 			}
-			if epic.EpicID != "" {
+			if !epic.IsEpic {
 				return fmt.Errorf("task %s is not an epic", epicID)
 			}
 		}
